@@ -32,7 +32,22 @@ private theorem split_at_dot {a a' x y : List Char} (ha : '.' ∉ a) (ha' : '.' 
 theorem validName_no_dot {n : List Char} (h : validName n = true) : '.' ∉ n := by
   intro hm
   simp only [validName, Bool.and_eq_true, List.all_eq_true] at h
-  have := h.2 '.' hm
+  have hb : '.' ∈ nameBody n := by
+    unfold nameBody
+    split
+    · rename_i hl
+      -- the last character is the newline, so the dot is among the others
+      have hne : n ≠ [] := by intro e; subst e; cases hm
+      have hsplit := List.dropLast_concat_getLast hne
+      have hlast : n.getLast hne = '\n' := by
+        have := List.getLast?_eq_some_getLast hne
+        rw [this] at hl; exact Option.some.inj hl
+      rw [← hsplit, List.mem_append] at hm
+      rcases hm with h1 | h1
+      · exact h1
+      · rw [hlast, List.mem_singleton] at h1; exact absurd h1 (by decide)
+    · exact hm
+  have := h.2 '.' hb
   revert this
   decide
 
@@ -58,7 +73,8 @@ theorem prefix_iff_same_context {c c' p s : List Char} (hc : '.' ∉ c) (hc' : '
   · rintro rfl
     exact ⟨p ++ '.' :: s, by simp [fullName]⟩
 
-example : validName "pub_1".toList = true ∧ validName "a.b".toList = false := by decide
+example : validName "pub_1".toList = true ∧ validName "a.b".toList = false ∧ validName "ab\n".toList = true ∧
+    validName "a\nb".toList = false ∧ validName "\n".toList = false := by decide
 
 
 /-! ## Snapshot semantics: delivered exactly once iff in the snapshot
